@@ -103,11 +103,11 @@ pub fn compare_all(x: &[u8], k: usize, body_len: usize, st: &mut Stats) -> Resul
         let mut routes: Vec<(&str, standard::SemiIndex)> = vec![
             ("pfsm", standard::build_semi_index(x)),
             ("sse2", simd::x86::build_semi_index_standard(x)),
-            ("dispatch", simd::build_semi_index_standard(x)),
         ];
         if avx2 {
             routes.push(("avx2", simd::avx2::build_semi_index_standard(x)));
         }
+        routes.push(("dispatch", simd::build_semi_index_standard(x)));
         for (name, s) in &routes {
             if s.ib != r.ib {
                 fail!(format!("C05/standard/{}/ib", name), {"diff": first_diff(&r.ib, &s.ib), "case": info(x, k, body_len)});
@@ -151,11 +151,11 @@ pub fn compare_all(x: &[u8], k: usize, body_len: usize, st: &mut Stats) -> Resul
     {
         let mut routes: Vec<(&str, simple::SemiIndex)> = vec![
             ("sse2", simd::x86::build_semi_index_simple(x)),
-            ("dispatch", simd::build_semi_index_simple(x)),
         ];
         if avx2 {
             routes.push(("avx2", simd::avx2::build_semi_index_simple(x)));
         }
+        routes.push(("dispatch", simd::build_semi_index_simple(x)));
         for (name, s) in &routes {
             if s.ib != r.ib {
                 fail!(format!("C05/simple/{}/ib", name), {"diff": first_diff(&r.ib, &s.ib), "case": info(x, k, body_len)});
